@@ -261,7 +261,16 @@ func c20CheckRename(p *Prog, r *Report, rule string, fc *FuncCtx, ren CallSite) 
 	cleanup := false
 	check := func(c *FuncCtx) {
 		for _, cs := range c.AllCalls() {
-			if cs.Fn != nil && osFn(cs.Fn, "Remove") {
+			if cs.Fn == nil || !(osFn(cs.Fn, "Remove") || osFn(cs.Fn, "RemoveAll")) || len(cs.Call.Args) != 1 {
+				continue
+			}
+			// what is deleted must be the temporary file and nothing else — in particular not
+			// the store itself, which only ever is the target of the rename
+			arg := c.ResolveUp(cs.Call.Args[0])
+			rv, _, isN := methodCall(info, arg, "os", "File", "Name")
+			isTemp := isN && objOf(info, rv) == fileObj
+			r.Check(isTemp, rule, prefix+":removes-only-the-temp-file@"+exprStr(cs.Call), cs.Pos(), "deletes the temporary file", "the cleanup deletes "+exprStr(cs.Call.Args[0])+", which is not the temporary file of this write: a failed save removes the live store (or leaves the temporary file behind)")
+			if isTemp {
 				cleanup = true
 			}
 		}
